@@ -181,6 +181,7 @@ class HistoryMonitor(Monitor):
     def on_before_get(self, ctx):
         if ctx.commits >= 1:
             self.check_pending(ctx)
+            self.check_pending_fresh(ctx)
             if getattr(self, "_occupancy_checked_at", None) != ctx.commits:
                 self.check_occupancy(ctx)
 
@@ -322,27 +323,54 @@ class HistoryMonitor(Monitor):
         self.stats["interaction_commits"] += 1
         if age >= 2:
             self.stats["interaction_commits_age>=2"] += 1
+        stale = self.compare_with_in_state(snap, before)
+        if stale is not None:
+            self.verdict("C08", stale[0], "%s committed an event computed %d commits ago: %s" % (name, age, stale[1]),
+                         ctx)
+
+    def compare_with_in_state(self, snap, current):
+        """None if every unit of the in-state snapshot still has the same velocity and lies on the same straight line
+        (same position if resting) in `current`; otherwise (signature, description)."""
         for uid, (p, v, ts) in snap.items():
-            g = before.get(uid)
+            g = current.get(uid)
             if g is None:
                 continue
             pg, vg, tsg = g
             if vg != v:
-                self.verdict("C08", "stale-velocity", "%s committed an event computed %d commits ago: unit %r had "
-                             "velocity %r then, %r now" % (name, age, uid, v, vg), ctx)
-                return
+                return "stale-velocity", "unit %r had velocity %r then, %r now" % (uid, v, vg)
             if v is None:
                 if pg != p:
-                    self.verdict("C08", "stale-position", "%s: resting unit %r was at %r when the candidate was "
-                                 "computed, now at %r" % (name, uid, p, pg), ctx)
-                    return
+                    return "stale-position", "resting unit %r was at %r when the candidate was computed, now at %r" % (
+                        uid, p, pg)
             else:
                 x = self.pos_at((p, v, ts), tsg)
                 for axis in range(self.dim):
                     if not self.congruent(x[axis], pg[axis], axis, 1e-9 * self.lengths[axis]):
-                        self.verdict("C08", "stale-trajectory", "%s: moving unit %r left the trajectory the candidate "
-                                     "was computed from" % (name, uid), ctx)
-                        return
+                        return "stale-trajectory", "moving unit %r left the trajectory the candidate was computed " \
+                                                   "from" % (uid,)
+        return None
+
+    def check_pending_fresh(self, ctx):
+        """C08, second sentence: no candidate of an interaction or cell-veto handler survives in the scheduler after
+        another event changed the motion of a unit it depends on.  Looked at when the mediator asks the scheduler for
+        the next event, i.e. after the trashes and creations of the last committed event."""
+        current = getattr(self, "last_after", None)
+        if current is None:
+            return
+        for hid, h in self.pending.items():
+            if self.kind.get(hid) != "interaction":
+                continue
+            snap = self.in_snap.get(hid)
+            if snap is None:
+                continue
+            self.stats["pending_candidates_checked"] += 1
+            stale = self.compare_with_in_state(snap, current)
+            if stale is not None:
+                self.verdict("C08", "pending-" + stale[0], "a candidate of %s computed %d commits ago is still pending "
+                             "in the scheduler although %s" % (h.__class__.__name__,
+                                                               ctx.commits - self.pushed_at.get(hid, ctx.commits),
+                                                               stale[1]), ctx)
+                return
 
     # ------------------------------------------------------------------------------------------------ C09
     def check_pending(self, ctx):
